@@ -27,15 +27,22 @@ def timer_ev(e):
 
 
 def discover_flags(F, all_paths):
-    """flag field for kind K = the bool field assigned true on every path that pushes Reset(K)."""
+    """flag field for kind K = the bool field assigned true on the paths that push Reset(K).  A path that re-arms a timer
+    whose flag it knows to be set already (`was_running`) writes nothing: only paths that do write a `true` vote, and a
+    field must be written on every such path."""
     cand = {k: None for k in KINDS}
     for p in all_paths:
         pushed = {timer_ev(e[2])[1] for e in p.effects if e[0] == "push" and timer_ev(e[2]) and timer_ev(e[2])[0] == "Reset"}
         if not pushed:
             continue
         true_writes = {conn.field_of_write(e) for e in p.effects if e[0] == "write" and e[1] == ("self",) and e[3] == ("c", 1, "bool")}
+        if not true_writes:
+            continue
         for k in pushed:
-            cand[k] = true_writes if cand[k] is None else (cand[k] & true_writes)
+            if cand[k] is None:
+                cand[k] = set(true_writes)
+            elif cand[k] & true_writes:
+                cand[k] = cand[k] & true_writes
     out = {}
     for k, s in cand.items():
         if not s:
@@ -50,6 +57,36 @@ def discover_flags(F, all_paths):
             raise FactError("armed-flag field of timer %s ambiguous: %s" % (k, sorted(out[k])))
         out[k] = list(spec)[0]
     return out
+
+
+def path_bool(p, v):
+    """Truth of a boolean value under the path's constraints (a flag assigned `secs != 0` is decided by the branch the
+    path later takes on the same comparison): True / False / None."""
+    if v[0] == "c":
+        return v[1] == 1
+    if v[0] != "sym":
+        return None
+    t = v[1]
+    if t[0] == "not":
+        r = path_bool(p, t[1])
+        return None if r is None else (not r)
+    if t[0] == "cmp" and len(t) == 4:
+        # constraints are kept on the canonical atoms Eq(a, b) / Lt(a, b)
+        op, a, b = t[1], t[2], t[3]
+        neg = False
+        if op == "Ne":
+            op, neg = "Eq", True
+        elif op == "Gt":
+            op, a, b = "Lt", b, a
+        elif op == "Ge":
+            op, neg = "Lt", True
+        elif op == "Le":
+            op, a, b, neg = "Lt", b, a, True
+        r = conn.truth(p, (None, None, None, None, ("sym", ("cmp", op, a, b))))
+        if r is None and op == "Eq":
+            r = conn.truth(p, (None, None, None, None, ("sym", ("cmp", op, b, a))))
+        return None if r is None else (r != neg)
+    return conn.truth(p, (None, None, None, None, v))
 
 
 def walk_flags(F, p, flags):
@@ -68,7 +105,7 @@ def walk_flags(F, p, flags):
             if fld in inv:
                 v = e[3]
                 prev[inv[fld]] = cur[inv[fld]]
-                cur[inv[fld]] = (v[1] == 1) if v[0] == "c" else None
+                cur[inv[fld]] = path_bool(p, v)
         elif e[0] == "push":
             te = timer_ev(e[2])
             if te:
